@@ -7,7 +7,7 @@ from checks.c08 import has_complete_group
 
 RULE = ("antichains of the hierarchy (no cell an ancestor of another), duplicates allowed, resolutions mixed across faces: "
         "complete enumeration of the bounded sub-hierarchy of C08, Hypothesis antichains (recursive split/keep/drop, deep "
-        "grafts) with permutations and duplications, atheris (thorough). Oracle: set-based reference compaction "
+        "grafts) with permutations and duplications, long contiguous same-resolution runs (lengths around powers of 4 up to 4096), atheris (thorough). Oracle: set-based reference compaction "
         "(refids.ref_compact); output has no duplicates, equals the reference as a set, is the same for the generated orderings and for the numerically ascending (deduplicated) and descending orderings, and "
         "compact(compact(X)) == compact(X). Non-trivial = the reference result differs from set(X) (something had to merge) and "
         "X mixes >=2 resolutions across >=2 faces; distinct by the input list.")
@@ -91,6 +91,40 @@ def stage_hyp(ctx):
     hyp_drive(ctx, cases(), judge, 700 if ctx.tier == "quick" else 20000)
 
 
+def stage_blocks(ctx):
+    """Long lists (100-800 cells) with merge sites at chosen list positions (head, tail, far apart) and cascades."""
+    @st.composite
+    def blk(draw):
+        base = draw(gens.block_refinements())
+        o1 = draw(gens.orderings(st.just(base))) if len(base) <= 400 else base[::-1]
+        return {"cells": [hex(c) for c in base], "orderings": [[hex(c) for c in o1]]}
+
+    def judge_blk(case, col):
+        cells = [int(x, 16) for x in case["cells"]]
+        ords = [[int(x, 16) for x in o] for o in case.get("orderings", [])]
+        ref = judge_cells(cells, case, ords)
+        col.case({"n": len(cells), "first": case["cells"][0], "h": hash(tuple(cells)) & 0xFFFFFFFF}, nontrivial=ref != set(cells),
+                 classes=("block_refinement", "block_len>=200" if len(cells) >= 200 else "block_len<200"))
+    hyp_drive(ctx, blk(), judge_blk, 150 if ctx.tier == "quick" else 4000)
+
+
+def stage_runs(ctx):
+    """Long contiguous same-resolution runs (lengths around powers of 4, starts aligned to 4^j), as antichains."""
+    from checks.c08 import long_runs
+
+    def to_case(cs):
+        r = max(refids.res_of(c) for c in cs)
+        cs = [c for c in cs if refids.res_of(c) == r]          # drop the ancestor some runs carry: antichains only
+        return {"cells": [hex(c) for c in cs], "orderings": []}
+
+    def judge_run(case, col):
+        cells = [int(x, 16) for x in case["cells"]]
+        ref = judge_cells(cells, case)
+        col.case({"n": len(cells), "first": case["cells"][0], "last": case["cells"][-1]}, nontrivial=ref != set(cells),
+                 classes=("long_run", "run_len>=1024" if len(cells) >= 1024 else "run_len<1024"))
+    hyp_drive(ctx, long_runs().map(to_case), judge_run, 100 if ctx.tier == "quick" else 3000)
+
+
 def decode_case(fdp):
     """bytes -> antichain: paths from the world cell; a candidate overlapping an earlier one is skipped."""
     n = fdp.ConsumeIntInRange(0, 12)
@@ -123,7 +157,7 @@ def stage_fuzz(ctx):
 
 
 def plan(tier):
-    s = [Stage("enum", 16, stage_enum, cost=10), Stage("hyp", 16, stage_hyp, cost=6)]
+    s = [Stage("enum", 16, stage_enum, cost=10), Stage("hyp", 16, stage_hyp, cost=6), Stage("runs", 16, stage_runs, cost=6), Stage("blocks", 16, stage_blocks, cost=6)]
     if tier == "thorough":
         s.append(Stage("fuzz", 4, stage_fuzz, cost=6))
     return s
